@@ -100,10 +100,10 @@ RT = [RU("ttl2", nkeys=2, depth=7), RU("tti2", nkeys=2, depth=7), RU("cap_unit",
       RS("cap1", nkeys=3, depth=6)]
 VQ = [("unsync-small", 120, 40), ("unsync-mid", 30, 120), ("sync-small", 120, 40), ("sync-mid", 30, 120),
       ("sync-eager", 40, 60), ("sync-far", 150, 16), ("sync-burst", 200, 3), ("sync-stale", 600, 0), ("sync-flush", 14, 0), ("sync-grow", 100, 2),
-      ("unsync-batch", 16, 0), ("sync-batch", 2, 0), ("sync-reads", 2, 0), ("unsync-exp", 500, 30), ("sync-exp", 120, 30)]
+      ("unsync-batch", 16, 0), ("sync-batch", 2, 0), ("sync-reads", 2, 0), ("unsync-admit", 900, 0), ("sync-admit", 500, 0), ("unsync-exp", 500, 30), ("sync-exp", 120, 30)]
 VT = [("unsync-small", 2000, 60), ("unsync-mid", 400, 400), ("sync-small", 2000, 60), ("sync-mid", 400, 400),
       ("sync-eager", 600, 120), ("sync-far", 6000, 20), ("sync-burst", 2500, 4), ("sync-stale", 5000, 0), ("sync-flush", 60, 0), ("sync-grow", 1200, 2),
-      ("unsync-batch", 120, 0), ("sync-batch", 12, 0), ("sync-reads", 12, 0), ("unsync-exp", 4000, 40), ("sync-exp", 2000, 40)]
+      ("unsync-batch", 120, 0), ("sync-batch", 12, 0), ("sync-reads", 12, 0), ("unsync-admit", 9000, 0), ("sync-admit", 9000, 0), ("unsync-exp", 4000, 40), ("sync-exp", 2000, 40)]
 
 QSLICES = {
     "C01": ["cap2", "expiry2", "cap_const2", "s_cap1", "s_ttl_tti"],
@@ -1147,9 +1147,10 @@ def stage_burst(ctx, n):
     ctx.traces_ok += st["behaviours"] - len(bad)
     with open(trace) as f:
         ctx.samples.append({"kind": "un-synced burst", "events": [json.loads(l) for l in f.readlines()[:4]]})
-    if ctx.prop == "C04":
+    if ctx.prop in ("C04", "C09"):
         # the exact overshoot: four inserting threads under the controller, the thread that runs
         # maintenance starved until the write channel is full; the map is counted at every step
+        # (C09: every insert must still return once the starved maintenance run is let go)
         name = "cs_overshoot"
         beh = os.path.join(ctx.wd, name + ".beh.ndjson")
         with open(beh, "w") as f:
@@ -1172,7 +1173,8 @@ def stage_burst(ctx, n):
         ctx.traces_ok += st["behaviours"] - len(bad)
         with open(trace2) as f:
             ov = [json.loads(l) for l in f if '"Overshoot"' in l]
-        ctx.samples.append({"kind": "exact overshoot under the controller", "events": ov[:3]})
+        if ctx.prop == "C04":
+            ctx.samples.append({"kind": "exact overshoot under the controller", "events": ov[:3]})
 
 
 def run_conc_property(ctx):
